@@ -48,6 +48,7 @@ OWNERS = [
     ("step.returns_samples_written", ("C01", "C19")),
     ("step.cursor", ("C19", "C05", "C01")),
     ("step.dataset_index_advanced", ("C06", "C01")),
+    ("step.newfile.fill_value_is_written", ("C07",)),
     ("step.newfile.", ("C06", "C07")),
     ("step.extend", ("C06",)),
     ("step.existing", ("C06", "C07")),
